@@ -49,6 +49,8 @@ def main():
         def verdict(chk):
             out = []
             for cid, v in sorted(chk.items()):
+                if not isinstance(v, dict):
+                    out.append("%s: not re-evaluated (%s)" % (cid, str(v)[:60])); continue
                 ls = v.get("lines") or []
                 note = next((l for l in ls if l.startswith("NOTE")), None)
                 out.append("%s: %s%s" % (cid, "ALARM" if v.get("rc") not in (0,) else "ok", " (translator tie soft)" if note and v.get("rc") == 0 else ""))
